@@ -141,3 +141,73 @@ func ruleNumericCoreFinite(w *World, r *RuleResult) {
 		}
 	}
 }
+
+func init() {
+	register(&Rule{ID: "C06.R8", Min: 1,
+		Text: "an exponent-limit failure stops the operation: setExponent does not store the exponent when it returns a System* condition, so after a setExponent call no further rounding (a call reaching Rounder.Round or setExponent) is applied to the same destination unless the call's result was tested first — otherwise the destination's previous exponent is rounded and the returned flags depend on it",
+		Run:  ruleSystemLimitStops})
+}
+
+func ruleSystemLimitStops(w *World, r *RuleResult) {
+	calls := w.allCallsTo("(*Decimal).setExponent")
+	if len(calls) == 0 {
+		r.anchorMissing("(*Decimal).setExponent call sites")
+		return
+	}
+	reach := w.reachesFn("(*Decimal).setExponent")
+	for _, s := range calls {
+		f := s.Parent()
+		key := fmt.Sprintf("%s | setExponent result is tested before further rounding", w.shortName(f))
+		if n := countKey(r, key); n > 0 {
+			key = fmt.Sprintf("%s #%d", key, n+1)
+		}
+		recv := basePtr(s.Common().Args[0])
+		var later []*ssa.Call
+		for _, c := range callsIn(f) {
+			call, ok := c.(*ssa.Call)
+			if !ok || call == s {
+				continue
+			}
+			g := callee(call)
+			if g == nil || !(reach[g] || w.shortName(g) == "(*Decimal).setExponent") {
+				continue
+			}
+			gi := destArgIndex(w, g)
+			if gi >= len(call.Common().Args) || basePtr(call.Common().Args[gi]) != recv {
+				continue
+			}
+			after := call.Block() == s.Block() && instrIndex(call) > instrIndex(s) || call.Block() != s.Block() && reaches(s.Block(), call.Block())
+			if after {
+				later = append(later, call)
+			}
+		}
+		if len(later) == 0 {
+			r.ok(key, w.instrPos(s), "no rounding of the destination follows this call", false)
+			continue
+		}
+		var bad []string
+		for _, l := range later {
+			tested := false
+			for _, g := range guardsAt(l.Block()) {
+				derives := false
+				w.exprOf(f, g.Cond).walk(func(x *Expr) bool {
+					if x.V == ssa.Value(s) {
+						derives = true
+					}
+					return true
+				})
+				if derives {
+					tested = true
+				}
+			}
+			if !tested {
+				bad = append(bad, fmt.Sprintf("%s at %s", w.calleeName(l), w.instrPos(l)))
+			}
+		}
+		if len(bad) == 0 {
+			r.ok(key, w.instrPos(s), "the following rounding is reached only after the result was tested", true)
+		} else {
+			r.bad(key, w.instrPos(s), "when setExponent fails with a System* condition it has not stored the exponent, yet "+joinStrings(bad)+" still rounds the destination with whatever exponent it held before: the flags differ between a fresh, a reused and an aliased destination")
+		}
+	}
+}
